@@ -427,7 +427,7 @@ class FusionART(BaseART):
         for i in range(len(cache)):
             if cache[i]["match_criterion_bin"]:
                 keep_searching_i = self.modules[i]._match_tracking(
-                    cache[i], epsilon, params[i], method
+                    cache[i], epsilon, self.modules[i].params, method
                 )
                 keep_searching.append(keep_searching_i)
             else:
